@@ -509,6 +509,18 @@ impl Regex {
         start: usize,
     ) -> exec::Matches<super::classicalbacktrack::BacktrackExecutor<'r, indexing::Utf16Input<'t>>>
     {
+        // The decoders always read a surrogate pair as one character. A search that began between
+        // the two halves would step forwards over the low half alone but backwards over the whole
+        // pair, which takes a loop that gives characters back to the left of where it started and
+        // out of the slice. Begin after the pair instead.
+        let mut start = start;
+        if start > 0
+            && start < text.len()
+            && (0xDC00..=0xDFFF).contains(&text[start])
+            && (0xD800..=0xDBFF).contains(&text[start - 1])
+        {
+            start += 1;
+        }
         let input = Utf16Input::new(text, self.cr.flags.unicode);
         exec::Matches::new(
             super::classicalbacktrack::BacktrackExecutor::new(
